@@ -201,7 +201,8 @@ class extract_visitor(NodeVisitor):
                 tail = self.visit_in_flow(nn, tail)
                 continue
             name = nn  # type: ast.Name # type: ignore[assignment]
-            body_start.add_name(AssignedName(name.id, body_loc(node.body), np(name), node.iter))
+            # bound before the targets after it are evaluated: for i, d[i] in ...
+            body_start.add_name(AssignedName(name.id, np(name), np(name), node.iter))
         body = self.visit_in_flow(node.body, tail)
         body_start.loop(body)
 
